@@ -341,3 +341,39 @@ Proof.
       * unfold f_own in *. destruct sd; lia.
     + destruct sd; cbv beta iota in O; lia.
 Qed.
+
+(* ---------- quiescence ---------- *)
+Lemma ready_of_top s u : (u < nthr s)%nat -> stk s u <> [] -> ~ is_asleep (stk s u) -> status_of s u = SReady.
+Proof.
+  intros Hu NE NA. unfold status_of. destruct (Nat.ltb_spec u (nthr s)); [|lia].
+  unfold kstatus. destruct (stk s u) as [|[] ?]; try reflexivity; [congruence|cbn in NA; tauto].
+Qed.
+
+(* when no fiber can run, every unit of write_locked / reader_count is accounted for by a fiber
+   that finished while holding the lock: nobody else "owns or has been handed" anything *)
+Lemma quiescent_owners_of_inv s : Inv s -> (forall t, status_of s t <> SReady) ->
+  exists g, word (mem s) 0 = rw_pack (counts s g) /\ fields_ok (counts s g) /\
+            (forall t sd, waiting s t sd -> exists w, grole g t = RWait sd w) /\
+            forall u sd, 0 < c_own sd (grole g u) (stk s u) -> stk s u = [] /\ grole g u = ROwn sd.
+Proof.
+  intros [g I] Q. exists g. split; [apply I|]. split; [apply I|].
+  split; [intros t sd; apply waiting_role with (m := mem s); apply I|].
+  intros u sd P.
+  assert (NR : forall v, (v < nthr s)%nat -> stk s v <> [] -> ~ is_asleep (stk s v) -> False).
+  { intros v Hv A B. apply (Q v). apply ready_of_top; auto. }
+  destruct (Nat.lt_ge_cases u (nthr s)) as [Hu|Hu].
+  2:{ destruct (i_out _ _ I u Hu) as [p E]. pose proof (i_shape _ _ I u) as Sh. rewrite E in *.
+      inversion Sh; subst. rewrite <- H in P. cbn in P. lia. }
+  pose proof (i_shape _ _ I u) as Sh.
+  remember (stk s u) as k0 eqn:Hk. remember (grole g u) as r0 eqn:Hr.
+  destruct Sh; try (exfalso; apply (NR u Hu); rewrite <- Hk; [discriminate|cbn; tauto]).
+  - (* finished *) split; auto. destruct H as [->|[sd' ->]]; [cbn in P; lia|].
+    unfold c_own in P. cbn [tp] in P. destruct (side_eqb sd sd') eqn:E; [apply side_eqb_eq in E; congruence|cbn in P; lia].
+  - (* asleep *) exfalso. destruct H as [-> | [-> | ->]].
+    + unfold c_own in P. cbn [tp] in P. lia.
+    + destruct (i_popped _ _ I u sd0 (eq_sym Hr)) as [v Hv].
+      pose proof (inflight_popper _ _ _ Hv) as PV. pose proof (out_not_popper _ _ _ I PV) as Lv.
+      apply (NR v Lv); destruct (stk s v) as [|[] ?]; cbn in PV; try tauto; try discriminate; cbn; tauto.
+    + apply (Q u). unfold status_of. destruct (Nat.ltb_spec u (nthr s)); [|lia]. rewrite <- Hk. cbn [kstatus].
+      rewrite H1. reflexivity.
+Qed.
